@@ -616,7 +616,7 @@ func (r *runner) observe(n *core.Node, res *core.BlockResult) map[string]interfa
 		}
 	}
 	// the validation rules stored for every registered appchain: which one (if any) is bound (status available)
-	rules := []m{}
+	rules, rall := []m{}, []m{}
 	for _, c := range r.plan.allChains() {
 		rc := n.Query(constant.RuleManagerContractAddr.Address(), "Rules", pb.String(c))
 		var rl []struct {
@@ -627,6 +627,7 @@ func (r *runner) observe(n *core.Node, res *core.BlockResult) map[string]interfa
 		bound, unbinding := "", ""
 		if rc != nil && rc.Status == pb.Receipt_SUCCESS && json.Unmarshal(rc.Ret, &rl) == nil {
 			for _, x := range rl {
+				rall = append(rall, m{"a": c + "/" + ruleName(x.Address), "st": x.Status})
 				if x.Status == "available" && bound == "" {
 					bound = ruleName(x.Address)
 				}
@@ -665,7 +666,7 @@ func (r *runner) observe(n *core.Node, res *core.BlockResult) map[string]interfa
 		}
 	}
 	out := m{"counters": ctr, "status": st, "groups": groups, "tmeta": tm, "mmeta": mmeta, "svc": sv, "chains": ch, "relay": relay, "rules": rules,
-		"rlist": rlist, "nlist": nlist}
+		"rlist": rlist, "nlist": nlist, "rall": rall}
 	if r.govMode {
 		props := []m{}
 		for _, pid := range r.pids {
